@@ -8,6 +8,12 @@
 use vstd::prelude::*;
 use std::collections::VecDeque;
 verus! {
+/// `VecDeque::extend(vec)` (not used by the code today; present so that an edit using it is judged): appends at the BACK
+#[verifier::external_body]
+fn deque_extend_back(d: &mut std::collections::VecDeque<u64>, v: Vec<u64>)
+    ensures final(d)@ == old(d)@ + v@,
+{ unimplemented!() }
+
 
 //@extract struct bigtools/src/bbi/bbiread.rs Block
 //@rule R8
@@ -73,6 +79,7 @@ spec fn node_of(it: CirTreeNodeIterator<Vec<CirTreeNodeLeaf>, Vec<CirTreeNodeNon
 // is a node of the ghost tree, it yields that node's items in stored order.  Nothing is promised for
 // offsets outside the ghost tree.  The file content does not change; one log entry per call.
 //@extract fn bigtools/src/bbi/bbiread.rs read_node
+//@rule R16
 //@skipbody
 //@sub /pub\(crate\) fn read_node<R: SeekableRead>/ => fn read_node
 //@sub /file: &mut R/ => file: &mut VIndex
@@ -91,6 +98,7 @@ impl VIndex {
 // (`impl<S: SeekableRead> BBIFileRead for S`), verified here: read_node, then nodes_overlapping.
 // `Self = S` -> VIndex (R11, by placing the method in `impl VIndex`).
 //@extract method bigtools/src/bbi/bbiread.rs blocks_for_cir_tree_node "BBIFileRead for S\b"
+//@rule R16
 //@sub /io::Result<\((.*)\)>/ => Result<(\1), IoError>
 //@sub /SmallVec<\[([^;\]]+); 4\]>/ => Vec<\1> min=2
 //@sub /smallvec!\[\]/ => Vec::new() min=0
@@ -523,9 +531,11 @@ impl<'a> CirTreeBlockSearchIter<'a> {
 // the second substitution maps a (mutated) forward `into_iter()` loop to a forward index loop so that such
 // a change is judged by the contract instead of being an extraction failure.
 //@extract method bigtools/src/bbi/bbiread.rs next "Iterator for CirTreeBlockSearchIter"
+//@rule R16
 //@rule R8
 //@sub /Option<Self::Item>/ => Option<Result<Vec<Block>, IoError>>
 //@sub /for child in new_childblocks\.into_iter\(\)\.rev\(\) \{/ => let mut k__ = new_childblocks.len(); while k__ > 0 { k__ = k__ - 1; let child = new_childblocks[k__]; min=0
+//@sub /self\.remaining_childblocks\.extend\((\w+)\);/ => deque_extend_back(&mut self.remaining_childblocks, \1); min=0
 //@sub /for child in new_childblocks\.into_iter\(\) \{/ => let mut k__ = 0; while k__ < new_childblocks.len() { let child = new_childblocks[k__]; k__ = k__ + 1; min=0
 //@ret r
 //@sig
@@ -551,7 +561,7 @@ impl<'a> CirTreeBlockSearchIter<'a> {
                     + old(self).remaining_childblocks@.drop_first(),
             [[L: failed_step_only_pops]]
             r matches Some(Err(e)) ==> final(self).remaining_childblocks@ == old(self).remaining_childblocks@.drop_first(),
-//@loop 1
+//@loop 1 optional
             invariant
                 [[L: loop/pushed_suffix_in_order]]
                 k__ <= new_childblocks@.len(),
@@ -571,6 +581,7 @@ impl<'a> CirTreeBlockSearchIter<'a> {
 // (the desugaring of `for` over an Iterator, with the inherent `next`); `blocks.extend(i)` -> extend_vec.
 #[verifier::loop_isolation(false)]
 //@extract fn bigtools/src/bbi/bbiread.rs search_cir_tree_inner
+//@rule R16
 //@sub /pub\(crate\) fn/ => fn
 //@sub /search_cir_tree_inner<R: BBIFileRead>/ => search_cir_tree_inner
 //@sub /file: &mut R/ => file: &mut VIndex
